@@ -92,9 +92,14 @@ RunV(s, dl) ==
       iran |-> IF s.kind = "unary" /\ fails THEN {0}
                ELSE IF s.kind = "unary" /\ st.codes # {0} THEN {0, 1} ELSE {1},
       codes |-> st.codes, msgs |-> st.msgs, dl |-> dl]
+\* a grammatical timeout of zero (or below a millisecond) is honoured like any other: the deadline has passed when
+\* the call starts, so it may end as deadline_exceeded before user code runs -- user code that does run sees it
+Expired(dl) == dl.k = "ms" /\ dl.ms = 0
+RunX(s, dl) == LET v == RunV(s, dl) IN
+               IF Expired(dl) THEN [v EXCEPT !.ran = @ \cup {0}, !.codes = @ \cup {4}] ELSE v
 ServeV(s) == IF s.enc = "unknown" THEN Rejected(12)
              ELSE IF ~TimeoutOK(s) THEN Rejected(3)
-             ELSE RunV(s, Deadline(s))
+             ELSE RunX(s, Deadline(s))
 Serve == /\ pc = "serve" /\ r' = ServeV(sc) /\ pc' = "done" /\ UNCHANGED sc
 Next == G505 \/ G405 \/ G415 \/ Serve
 
